@@ -1,6 +1,7 @@
 """C15, C16: text forms of a CAN frame (frame.go String/UnmarshalString, frame_json.go
 JSON/MarshalJSON/UnmarshalJSON). DESIGN.md 5.15, 5.16."""
 import vlib
+from checks import translate_tie
 
 _NOTE = ("Trusted: Coq 8.16.1 kernel; extraction (ExtrOcamlBasic) + OCaml 4.13.1; the hand-written models "
          "Can/FrameString.v, Can/FrameJSON.v and the library oracles of Base/Dec.v, Base/Hex.v (strconv.ParseUint/Atoi/Itoa, "
@@ -81,6 +82,20 @@ def harness_args(pid, tier, seed):
     return ["c16", seed] + ([1, 40, 10000, 4] if tier == "quick" else [4, 2000, 200000, 1])
 
 
+TIE_NOTE_TEXT = (" Translated here with their run-time panics modelled (result None = slice-bounds / index panic): strings are byte "
+                 "lists; s[i], s[a:b], Data[:Length], parts[k] carry an explicit bounds test in front of the statement. Library "
+                 "functions are READ as the definitions of Translate/GoSemText.v (trusted readings): fmt.Sprintf(\"%0wX\") = "
+                 "Hex.fmt_hex_upper, strconv.Itoa = Dec.itoa, hex.EncodeToString = Hex.hex_encode, strings.ToUpper = ASCII upper-casing "
+                 "(valid for ASCII arguments only; the call site's argument is proved ASCII), strings.Split(s, \"#\") = the pieces "
+                 "between one-byte separators, strconv.ParseUint = Dec.parse_uint (value 0 / max on error), strconv.Atoi = Dec.atoi and "
+                 "hex.DecodeString = Hex.hex_decode (the value returned together with a non-nil error is not modelled).")
+translate_tie.describe(PROPERTIES, "C15", "Frame.String and Frame.UnmarshalString of frame.go (= to_string / unmarshal_string) and Frame.JSON",
+                       translate_tie.TIE_NOTE_INT, TIE_NOTE_TEXT)
+translate_tie.describe(PROPERTIES, "C16", "Frame.JSON of frame_json.go (= to_json; the decoding direction UnmarshalJSON is NOT translated) "
+                       "and Frame.String / Frame.UnmarshalString",
+                       translate_tie.TIE_NOTE_INT, TIE_NOTE_TEXT)
+
+
 def replay_args(replay):
     """--replay <file written by a failing run>: re-run exactly the recorded observation."""
     import json
@@ -94,6 +109,7 @@ def replay_args(replay):
 def run(res, replay=None):
     pid = res.id
     vlib.proof_stage(res)
+    translate_tie.run_tie(res, ["frametext"])
     hargs = harness_args(pid, res.tier, res.seed)
     if replay:
         hargs = replay_args(replay) or hargs
